@@ -190,7 +190,8 @@ class Program:
                 m.imports[a.asname or a.name] = (base, a.name)
         elif isinstance(st, ast.Import):
             for a in st.names:
-                m.imports[a.asname or a.name.split(".")[0]] = (a.name, None)
+                # `import a.b` binds the top-level package `a`; `import a.b as c` binds the submodule
+                m.imports[a.asname or a.name.split(".")[0]] = (a.name if a.asname else a.name.split(".")[0], None)
         elif isinstance(st, ast.If):
             # `if sys.version_info ...` / `if TYPE_CHECKING` / `if not TYPE_CHECKING`
             test_src = ast.unparse(st.test)
